@@ -672,7 +672,7 @@ func main() {
 	mode := flag.String("mode", "full", "full | race (concurrent schedules only, for the -race build)")
 	r := rep.Open()
 	defer r.Close()
-	r.Samples = []string{} // never null in stats.json
+	r.Samples = []string{}    // never null in stats.json
 	log.SetOutput(io.Discard) // the client logs every fatal read error; the scripts cause many
 	r.Rule = "sched: one client session against a scripted fake server; per case k<=64 simultaneously pending calls, PRNG-chosen reply order / reply kind (right type, Rerror, wrong type) / cancellations / failed writes / late replies to abandoned tags; non-trivial when >=2 calls were pending at once or replies were reordered. wrap: one session with >=70000 (quick) / 200000 (thorough) requests and up to ~1000 long-outstanding tags. alloc: VerifAllocateTag on random pools (empty, blocks, nearly full, full) x hints. Distinct by canonical case text."
 	rng := prng.New(r.Seed)
